@@ -135,6 +135,34 @@ func c06Case(c *Ctx) {
 		nfaults = 16
 	}
 	for i := 0; i < nfaults; i++ {
+		if jobMode == "" && len(twin.Jobs) >= 3 && c.Plan.Draw(6) == 0 {
+			// two jobs of different forks fail in the same run (both hard, both once)
+			a := twin.Jobs[c.Plan.Draw(len(twin.Jobs))]
+			b := twin.Jobs[c.Plan.Draw(len(twin.Jobs))]
+			if a.Node+a.Fork != b.Node+b.Fork {
+				hard := []string{"stage-error", "assert", "exit-nonzero", "late-error"}
+				fa, fb := hard[c.Plan.Draw(len(hard))], hard[c.Plan.Draw(len(hard))]
+				cfg := &RunCfg{Prog: prog, FCfg: fcfg, MaxSteps: 80000, Flags: flags,
+					WMrp: base.WMrp, WJob: base.WJob, WAux: base.WAux, WTime: base.WTime,
+					MapMode: base.MapMode, MapSalt: base.MapSalt}
+				cfg.JobFaults = map[string]string{a.Key() + ":" + a.Phase + "#1": fa, b.Key() + ":" + b.Phase + "#1": fb}
+				cfg.Restarts = 2
+				r := c.RunOnce(cfg, nil)
+				c.Res.Probes["fault-runs-with-two-failing-jobs"]++
+				vs := checkDoubleFailure(r, ev, a, b, fa, fb, twinOuts)
+				if len(vs) > 0 || c.Res.Sample == nil {
+					s := describeRun(r, true)
+					s["fault"] = map[string]interface{}{"job_a": a.Key() + ":" + a.Phase, "fault_a": fa, "job_b": b.Key() + ":" + b.Phase, "fault_b": fb}
+					s["twin_outs"] = twinOuts
+					c.Res.Sample = s
+				}
+				if len(vs) > 0 {
+					c.Res.Violations = append(c.Res.Violations, vs...)
+					break
+				}
+				continue
+			}
+		}
 		j := twin.Jobs[c.Plan.Draw(len(twin.Jobs))]
 		st := prog.Stage(j.Stage)
 		var ms []manifest
@@ -465,6 +493,122 @@ func checkFailureDiskFull(r *Run, fj *JobRec, m manifest, persistent bool, twinO
 	}
 	if !persistent && len(r.ExitCodes) > 1 && r.ExitCodes[len(r.ExitCodes)-1] != 0 {
 		add("restart-after-fault-removed-failed", fmt.Sprintf("exit codes %v: %s", r.ExitCodes, lastLines(r.outBuf.String(), 8)))
+	}
+	return out
+}
+
+// checkDoubleFailure: two jobs of different forks fail hard, each on its first attempt.
+// Whether the second failure is reached depends on the schedule and on the dependency
+// between the two (mrp stops at the first failure it sees); every incarnation that met
+// a failure exits non-zero without a success message and names a failing stage; no
+// dependent of a failed fork starts before that fork's failed job has a successful
+// attempt; at most two restarts later the pipestance completes with the fault-free
+// outputs, and nothing that had completed without a fault is executed again.
+func checkDoubleFailure(r *Run, ev *Eval, a, b *JobRec, fa, fb string, twinOuts string) []Violation {
+	var out []Violation
+	desc := fmt.Sprintf("%s of %s (%s) and %s of %s (%s), each on its first attempt", fa, a.Key(), a.Phase, fb, b.Key(), b.Phase)
+	add := func(oracle, msg string) {
+		out = append(out, Violation{"C06", oracle, desc + ": " + msg, r.Steps})
+	}
+	if r.Class() == "step-budget" {
+		r.Probes["step-budget-exhausted"]++
+		return out
+	}
+	if len(r.ExitCodes) == 0 {
+		add("no-exit", "mrp did not exit: "+r.Class())
+		return out
+	}
+	// per incarnation: did a fault fire in it?
+	fired := map[int][]*JobRec{}
+	for _, j := range r.Jobs {
+		if j.Fault == fa && j.Key() == a.Key() && j.Phase == a.Phase || j.Fault == fb && j.Key() == b.Key() && j.Phase == b.Phase {
+			fired[j.Inc] = append(fired[j.Inc], j)
+		}
+	}
+	outs := strings.Split(r.outBuf.String(), "Martian Runtime")
+	for inc, code := range r.ExitCodes {
+		fj := fired[inc+1]
+		if len(fj) == 0 {
+			continue
+		}
+		if code == 0 {
+			add("failure-not-detected", fmt.Sprintf("incarnation %d met a failing job and exited 0 (exit codes %v)", inc+1, r.ExitCodes))
+		}
+		if inc+1 < len(outs) {
+			text := outs[inc+1]
+			if strings.Contains(text, "Pipestance completed successfully") {
+				add("reported-success", fmt.Sprintf("incarnation %d printed 'Pipestance completed successfully'", inc+1))
+			}
+			named := false
+			for _, j := range fj {
+				if strings.Contains(text, j.Node+"/") || strings.Contains(text, strings.ReplaceAll(j.Node, "/", ".")) || strings.Contains(text, "in "+j.Stage) {
+					named = true
+				}
+			}
+			if !named && code != 0 {
+				add("error-does-not-name-stage", fmt.Sprintf("the report of incarnation %d mentions none of the stages that failed in it: %s", inc+1, lastLines(text, 8)))
+			}
+		}
+	}
+	// hard failures are never retried within an incarnation
+	for inc, fj := range fired {
+		n := map[string]int{}
+		for _, j := range r.Jobs {
+			if j.Inc == inc {
+				n[j.Key()+":"+j.Phase]++
+			}
+		}
+		for _, j := range fj {
+			if n[j.Key()+":"+j.Phase] > 1 {
+				add("non-transient-error-retried", fmt.Sprintf("%s (%s) was executed %d times by incarnation %d", j.Key(), j.Phase, n[j.Key()+":"+j.Phase], inc))
+			}
+		}
+	}
+	// dependents
+	for _, fj := range []*JobRec{a, b} {
+		deps := dependents(ev, fj.Node, fj.Fork)
+		done := 0
+		injected := false
+		for _, j := range r.Jobs {
+			if j.Key() == fj.Key() && j.Phase == fj.Phase {
+				if j.Fault != "" {
+					injected = true
+				} else if j.Outcome == "complete" && (done == 0 || j.EndSeq < done) {
+					done = j.EndSeq
+				}
+			}
+		}
+		if !injected {
+			continue
+		}
+		for _, j := range r.Jobs {
+			if deps[j.Node+"\x00"+j.Fork] && (done == 0 || j.StartSeq < done) {
+				add("dependent-started", fmt.Sprintf("job %s (%s) depends on the failed %s but was started (seq %d) before a later attempt of it succeeded", j.Key(), j.Phase, fj.Key(), j.StartSeq))
+				break
+			}
+		}
+	}
+	// the end: complete, the fault-free outputs
+	last := r.ExitCodes[len(r.ExitCodes)-1]
+	if last != 0 {
+		add("restart-after-fault-removed-failed", fmt.Sprintf("exit codes %v: %s", r.ExitCodes, lastLines(r.outBuf.String(), 8)))
+	} else if act, err := r.ReadTopOuts(); err != nil {
+		add("outs-missing", err.Error())
+	} else if got := Canon(r.normFiles(act)); got != twinOuts {
+		add("restart-outs-differ", fmt.Sprintf("final outputs %s differ from the fault-free run's %s", got, twinOuts))
+	}
+	for _, x := range r.Jobs {
+		if x.Outcome != "complete" || x.Fault != "" {
+			continue
+		}
+		for _, y := range r.Jobs {
+			if y.Inc > x.Inc && y.Id() == x.Id() {
+				add("completed-job-reexecuted-after-failure", fmt.Sprintf("%s (%s) had completed in incarnation %d but was executed again by incarnation %d", x.Key(), x.Phase, x.Inc, y.Inc))
+			}
+		}
+	}
+	if len(out) > 3 {
+		out = out[:3]
 	}
 	return out
 }
